@@ -23,6 +23,7 @@ package combinator
 //@   ensures  [once;C01,C02] ncalls() == 1 && callarg[*parsley.Context](1, 1) == ctx && same(callarg[data.IntMap](1, 2), lrc) && callarg[parsley.Pos](1, 3) == pos
 //@   ensures  [E6;C01] n != nil && same(cp, callres[data.IntSet](1, 1)) && same(err, callres[parsley.Error](1, 2))
 //@   ensures  [E6-empty;C01] callres[parsley.Node](1, 0) == nil ==> same(n, ast.EmptyNode(pos))
+//@   ensures  [E6-has-empty;C01,C04] callres[parsley.Node](1, 0) != nil ==> typeis[ast.NodeList](n) && (same(n.(ast.NodeList)[len(n.(ast.NodeList))-1], ast.EmptyNode(pos)) || exists k int :: 0 <= k && k < len(n.(ast.NodeList)) && same(n.(ast.NodeList)[k], ast.EmptyNode(pos)))
 
 //@ -- SuppressError drops the error (by design it may return neither a node nor an error)
 //@ closure SuppressError$1(ctx *parsley.Context, lrc data.IntMap, pos parsley.Pos) (n parsley.Node, cp data.IntSet, err parsley.Error)
@@ -205,9 +206,9 @@ package combinator
 //@   ensures  [fixed] same(s.parserLookUp, old(s.parserLookUp)) && same(s.lenCheck, old(s.lenCheck)) && same(s.resultHandler, old(s.resultHandler)) && s.token == old(s.token) && same(s.interpreter, old(s.interpreter))
 //@   assert_at entry [sep] cap(s.nodes) == 0 || s.result == nil || !typeis[ast.NodeList](s.result) || array(s.result.(ast.NodeList)) != array(s.nodes)
 //@   logs combinator.(*sequence).parse
-//@   ensures  [next;C01,C02,C04] ncalls() == 1 && callarg[int](1, 1) == depth+1 && callarg[*parsley.Context](1, 2) == ctx && callarg[parsley.Pos](1, 4) == node.ReaderPos()
-//@   ensures  [next-same-pos;C01,C02,C04] node.ReaderPos() <= pos ==> same(callarg[data.IntMap](1, 3), lrc) && callarg[bool](1, 5) == merge
-//@   ensures  [next-consumed;C01,C02,C04] node.ReaderPos() > pos ==> !callarg[bool](1, 5) && forall k int :: !dom(data.MapOf(callarg[data.IntMap](1, 3)), k)
+//@   ensures  [next;C01,C02,C03,C04] ncalls() == 1 && callarg[int](1, 1) == depth+1 && callarg[*parsley.Context](1, 2) == ctx && callarg[parsley.Pos](1, 4) == node.ReaderPos()
+//@   ensures  [next-same-pos;C01,C02,C03,C04] node.ReaderPos() <= pos ==> same(callarg[data.IntMap](1, 3), lrc) && callarg[bool](1, 5) == merge
+//@   ensures  [next-consumed;C01,C02,C03,C04] node.ReaderPos() > pos ==> !callarg[bool](1, 5) && forall k int :: !dom(data.MapOf(callarg[data.IntMap](1, 3)), k)
 //@   requires [cp-merged;C01] merge ==> cpMerged(s, depth)
 //@   ensures  [cp-mono;C01] cpMono(s) && elemCpKept(s, depth+1)
 //@   requires [L;C06] seqErrOK(s)
